@@ -319,6 +319,60 @@ class Sym:
             self.bind(p, v, env)
         return self.run_frame("fn", body["body"], env)
 
+    def fn_exits(self, body, args=None):
+        """Every way the function completes: [(path condition, returned value)] (early returns, `?` exits, the tail)."""
+        env = {}
+        for i, p in enumerate(body["params"]):
+            v = args[i] if args is not None and i < len(args) else ("s", "p%d" % i)
+            self.bind(p, v, env)
+        fr = _Frame("fn")
+        self.frames.append(fr)
+        tails = []
+        try:
+            self.tail_exits(body["body"], env, TRUE, tails)
+        finally:
+            self.frames.pop()
+        return [(p, x) for p, x in fr.returns + tails if p != FALSE]
+
+    def tail_exits(self, n, env, pc, out):
+        """Evaluates an expression in tail position, keeping the alternatives of `if` / `match` / `if let` apart."""
+        n0 = H.peel(n, refs=False, derefs=False)
+        k = n0.get("k")
+        if k == "block":
+            for s_ in n0["stmts"]:
+                if pc == FALSE:
+                    return
+                _, pc = self.ev(s_, env, pc)
+            if "tail" in n0 and pc != FALSE:
+                self.tail_exits(n0["tail"], env, pc, out)
+            elif pc != FALSE:
+                out.append((pc, ("t", [])))
+            return
+        if k == "if" and "else" in n0:
+            e_then = dict(env)
+            cv, pc_c = self.ev(n0["cond"], e_then, pc)
+            fc = self.positive(cv)
+            self.tail_exits(n0["then"], e_then, f_and(pc_c, fc), out)
+            self.tail_exits(n0["else"], dict(env), f_and(pc_c, f_not(fc)), out)
+            return
+        if k == "match":
+            sv, pc = self.ev(n0["scrut"], env, pc)
+            prev = FALSE
+            for a in n0["arms"]:
+                e2 = dict(env)
+                c = self.bind(a["pat"], sv, e2)
+                if "guard" in a:
+                    g, _ = self.ev(a["guard"], e2, f_and(pc, f_and(c, f_not(prev))))
+                    c = f_and(c, self.positive(g))
+                taken = f_and(c, f_not(prev))
+                prev = f_or(prev, c)
+                if taken != FALSE:
+                    self.tail_exits(a["body"], e2, f_and(pc, taken), out)
+            return
+        v, pc = self.ev(n0, env, pc)
+        if pc != FALSE:
+            out.append((pc, v))
+
     def fn_formula(self, body, args=None):
         return self.positive(self.fn_value(body, args))
 
@@ -487,6 +541,8 @@ class Sym:
             v = b[1]
             if isinstance(v, bool):
                 return atom("?", "eq bool")
+            if v == "":
+                return atom("empty", a[1])
             return atom("eq", a[1], v)
         if a[0] == "b" and b[0] == "c" and isinstance(b[1], bool):
             return a[1] if b[1] else f_not(a[1])
@@ -560,6 +616,8 @@ class Sym:
                 v = v["raw_le"]
             if isinstance(v, (int, str)):
                 return ("c", v), pc
+            if isinstance(v, (list, tuple)) and v and all(isinstance(x, (int, str)) and not isinstance(x, bool) for x in v):
+                return ("set", frozenset(v)), pc
         if r.get("dk") in ("Fn", "AssocFn"):
             return ("fn", r), pc
         return self.opaque(H.render(n)[:60]), pc
@@ -1025,6 +1083,15 @@ class Sym:
                 finally:
                     self.qdepth -= 1
                 return ("b", f_not(atom("any", recv[1], recv[2], f_not(self.positive(r)), var)), None)
+            if name == "try_for_each" and a0 and a0[0] in ("cl", "fn"):
+                # Ok unless some element makes the callback fail
+                self.qdepth += 1
+                var = ("$c%d" if recv[1] == "chars" else "$e%d") % self.qdepth
+                try:
+                    r = self.apply(a0, [("s", var)], pc)
+                finally:
+                    self.qdepth -= 1
+                return ("b", f_not(atom("any", recv[1], recv[2], f_not(self.positive(r)), var)), ("t", []))
             if name in ("find", "position") and a0 and a0[0] in ("cl", "fn"):
                 q, var = self.quant(recv, a0, pc)
                 return ("b", q, self.opaque("found"))
